@@ -120,35 +120,132 @@ func c06CryptoMergeSkipsOverlap(c *Ctx) {
 	if f == nil {
 		return
 	}
-	n, ok := 0, false
-	detail := ""
+	info := f.Info()
+	// the later frame: a *CryptoFrameOffset variable declared inside a loop body
+	later := map[types.Object]bool{}
 	ast.Inspect(f.Body, func(m ast.Node) bool {
-		call, isC := m.(*ast.CallExpr)
-		if !isC {
+		var body *ast.BlockStmt
+		switch x := m.(type) {
+		case *ast.ForStmt:
+			body = x.Body
+		case *ast.RangeStmt:
+			body = x.Body
+			if id, ok := x.Value.(*ast.Ident); ok {
+				if o := info.ObjectOf(id); o != nil && strings.HasSuffix(o.Type().String(), "CryptoFrameOffset") {
+					later[o] = true
+				}
+			}
+		}
+		if body == nil {
 			return true
 		}
-		id, isId := call.Fun.(*ast.Ident)
-		if !isId || id.Name != "copy" || len(call.Args) != 2 {
+		ast.Inspect(body, func(k ast.Node) bool {
+			if id, ok := k.(*ast.Ident); ok {
+				if o := info.Defs[id]; o != nil && strings.HasSuffix(o.Type().String(), "CryptoFrameOffset") {
+					later[o] = true
+				}
+			}
+			return true
+		})
+		return true
+	})
+	singleDef := func(id *ast.Ident) ast.Expr {
+		o := info.ObjectOf(id)
+		var rhs ast.Expr
+		cnt := 0
+		ast.Inspect(f.Body, func(m ast.Node) bool {
+			if as, ok := m.(*ast.AssignStmt); ok && len(as.Lhs) == len(as.Rhs) {
+				for i, l := range as.Lhs {
+					if lid, ok := l.(*ast.Ident); ok && info.ObjectOf(lid) == o {
+						rhs = as.Rhs[i]
+						cnt++
+					}
+				}
+			}
+			return true
+		})
+		if cnt == 1 {
+			return rhs
+		}
+		return nil
+	}
+	isLaterData := func(e ast.Expr) (types.Object, bool) {
+		sel, ok := ast.Unparen(e).(*ast.SelectorExpr)
+		if !ok || sel.Sel.Name != "Data" {
+			return nil, false
+		}
+		id, ok := ast.Unparen(sel.X).(*ast.Ident)
+		if !ok || !later[info.ObjectOf(id)] {
+			return nil, false
+		}
+		return info.ObjectOf(id), true
+	}
+	skipsOverlap := func(low ast.Expr, fr types.Object) bool {
+		low = ast.Unparen(low)
+		if id, ok := low.(*ast.Ident); ok {
+			if d := singleDef(id); d != nil {
+				low = ast.Unparen(d)
+			}
+		}
+		be, ok := low.(*ast.BinaryExpr)
+		if !ok || be.Op != token.SUB {
+			return false
+		}
+		sel, ok := ast.Unparen(be.Y).(*ast.SelectorExpr)
+		if !ok || sel.Sel.Name != "UpperAppOffset" {
+			return false
+		}
+		id, ok := ast.Unparen(sel.X).(*ast.Ident)
+		return ok && info.ObjectOf(id) == fr
+	}
+	sliced, bad := 0, ""
+	var visit func(n ast.Node, parent ast.Node)
+	var stack []ast.Node
+	ast.Inspect(f.Body, func(m ast.Node) bool {
+		if m == nil {
+			stack = stack[:len(stack)-1]
 			return true
 		}
-		dst, isS := ast.Unparen(call.Args[0]).(*ast.SliceExpr)
-		if !isS || dst.Low == nil || !strings.HasPrefix(nospace(core.ExprStr(dst.Low)), "len(") {
-			return true // the copy that appends behind the current range
+		var par ast.Node
+		if len(stack) > 0 {
+			par = stack[len(stack)-1]
 		}
-		n++
-		detail = core.ExprStr(call)
-		src, isSrc := ast.Unparen(call.Args[1]).(*ast.SliceExpr)
-		if !isSrc || src.Low == nil {
+		stack = append(stack, m)
+		e, ok := m.(ast.Expr)
+		if !ok {
 			return true
 		}
-		lo := nospace(core.ExprStr(src.Low))
-		if strings.Contains(lo, "-") && strings.Contains(lo, "UpperAppOffset") {
-			ok = true
+		fr, isD := isLaterData(e)
+		if !isD {
+			return true
+		}
+		switch x := par.(type) {
+		case *ast.CallExpr:
+			if id, ok := x.Fun.(*ast.Ident); ok && id.Name == "len" {
+				return true
+			}
+		case *ast.SliceExpr:
+			if x.X == e && x.Low != nil {
+				sliced++
+				if !skipsOverlap(x.Low, fr) && bad == "" {
+					bad = fmt.Sprintf("%s at %s", core.ExprStr(x), c.pos(x.Pos()))
+				}
+				return true
+			}
+		}
+		if bad == "" {
+			bad = fmt.Sprintf("%s used whole at %s", core.ExprStr(e), c.pos(e.Pos()))
 		}
 		return true
 	})
-	c.R.Checkf(rule, "crypto-merge-skips-the-overlap@ReassembleCryptos", c.pos(f.Pos()), ok && n == 1,
-		"the bytes appended behind the current CRYPTO range start at (end of current range − offset of the next frame) inside the next frame (%s): a retransmission framed differently overlaps the data already held, and copying the frame from its first byte duplicates the overlap inside the ClientHello (the server name is reported wrong)", detail)
+	_ = visit
+	c.R.Checkf(rule, "crypto-merge-skips-the-overlap@ReassembleCryptos", c.pos(f.Pos()), bad == "" && sliced >= 1,
+		"inside the merge loop the later frame's bytes are only taken from (end of current range − the later frame's offset) onwards (%d sliced use(s))%s: a retransmission framed differently overlaps the data already held, and copying the frame from its first byte duplicates the overlap inside the ClientHello (the server name is reported wrong)", sliced, func() string {
+			if bad != "" {
+				return " — VIOLATED: " + bad
+			}
+			return ""
+		}())
 }
 
 // makeThenAppend: a slice that is appended to is not created with a non-zero length
@@ -253,47 +350,96 @@ func c12IndexIsAppendPosition(c *Ctx) {
 	const rule = "SHARE"
 	n := 0
 	for _, f := range c.P.FuncsIn("control") {
-		if f.Decl == nil || !strings.HasPrefix(f.Name, "control.RoutingMatcherBuilder.add") {
+		if f.Decl == nil || f.Body == nil {
 			continue
 		}
 		info := f.Info()
+		mentions := func(st ast.Node) bool {
+			hit := false
+			ast.Inspect(st, func(m ast.Node) bool {
+				if e, ok := m.(ast.Expr); ok && core.FieldOf(info, e) == "RoutingMatcherBuilder.simulatedLpmTries" {
+					hit = true
+				}
+				return !hit
+			})
+			return hit
+		}
+		// parents of every statement
+		parent := map[ast.Node]ast.Node{}
+		var stack []ast.Node
 		ast.Inspect(f.Body, func(m ast.Node) bool {
-			blk, ok := m.(*ast.BlockStmt)
+			if m == nil {
+				stack = stack[:len(stack)-1]
+				return true
+			}
+			if len(stack) > 0 {
+				parent[m] = stack[len(stack)-1]
+			}
+			stack = append(stack, m)
+			return true
+		})
+		k := 0
+		ast.Inspect(f.Body, func(m ast.Node) bool {
+			as, ok := m.(*ast.AssignStmt)
+			if !ok || len(as.Lhs) != 1 || len(as.Rhs) != 1 {
+				return true
+			}
+			call, ok := as.Rhs[0].(*ast.CallExpr)
 			if !ok {
 				return true
 			}
-			for i, st := range blk.List {
-				as, ok := st.(*ast.AssignStmt)
-				if !ok || len(as.Lhs) != 1 || len(as.Rhs) != 1 {
-					continue
+			id, ok := call.Fun.(*ast.Ident)
+			if !ok || id.Name != "append" || len(call.Args) < 2 || core.FieldOf(info, call.Args[0]) != "RoutingMatcherBuilder.simulatedLpmTries" {
+				return true
+			}
+			n++
+			k++
+			want := nospace("len(" + core.ExprStr(call.Args[0]) + ")")
+			// walk backwards: preceding statements of this block, then of the enclosing blocks
+			got, okIdx := "no statement reads the slot list's length before the append", false
+			var cur ast.Node = as
+		up:
+			for cur != nil {
+				par := parent[cur]
+				var list []ast.Stmt
+				switch x := par.(type) {
+				case *ast.BlockStmt:
+					list = x.List
+				case *ast.CaseClause:
+					list = x.Body
 				}
-				call, ok := as.Rhs[0].(*ast.CallExpr)
-				if !ok {
-					continue
-				}
-				id, ok := call.Fun.(*ast.Ident)
-				if !ok || id.Name != "append" || len(call.Args) < 2 || core.FieldOf(info, call.Args[0]) != "RoutingMatcherBuilder.simulatedLpmTries" {
-					continue
-				}
-				n++
-				want := "len(" + core.ExprStr(call.Args[0]) + ")"
-				okIdx := false
-				got := "?"
-				if i > 0 {
-					if prev, ok := blk.List[i-1].(*ast.AssignStmt); ok && len(prev.Rhs) == 1 {
-						got = core.ExprStr(prev.Rhs[0])
-						if strings.Contains(nospace(got), nospace(want)) {
-							okIdx = true
-						}
+				idx := -1
+				for i, st := range list {
+					if ast.Node(st) == cur {
+						idx = i
 					}
 				}
-				c.R.Checkf(rule, fmt.Sprintf("set-index-is-its-append-position@%s#%d", strings.TrimPrefix(f.Name, "control.RoutingMatcherBuilder."), n), c.pos(as.Pos()), okIdx,
-					"the index stored for the set appended here is %s taken immediately before the append (got %s): an index counted from another table (e.g. the dedup table, which MAC sets do not enter) points ip() rules at the previous set's storage", want, got)
+				for i := idx - 1; i >= 0; i-- {
+					if !mentions(list[i]) {
+						continue
+					}
+					if _, isIf := list[i].(*ast.IfStmt); isIf {
+						continue // a test on the table (e.g. a capacity check) is not the index
+					}
+					got = core.ExprStr2(list[i])
+					ast.Inspect(list[i], func(k ast.Node) bool {
+						if lc, ok := k.(*ast.CallExpr); ok && len(lc.Args) == 1 {
+							if lid, ok := lc.Fun.(*ast.Ident); ok && lid.Name == "len" && core.FieldOf(info, lc.Args[0]) == "RoutingMatcherBuilder.simulatedLpmTries" {
+								okIdx = true
+							}
+						}
+						return true
+					})
+					break up
+				}
+				cur = par
 			}
+			c.R.Checkf(rule, fmt.Sprintf("set-index-is-its-append-position@%s#%d", strings.TrimPrefix(f.Name, "control."), k), c.pos(as.Pos()), okIdx,
+				"the last statement before this append that touches the slot list reads its length (%s) — that is the index recorded for the appended set (got: %s): an index counted from another table (e.g. the dedup table, which MAC sets do not enter) points ip() rules at the previous set's storage", want, truncRunes(got, 120))
 			return true
 		})
 	}
-	c.R.Floor(rule+"/append-sites", n, 3)
+	c.R.Floor(rule+"/append-sites", n, 1)
 }
 
 // C13: an endpoint removes only itself from the pool
@@ -346,4 +492,12 @@ func c13SelfRemoveIdentity(c *Ctx) {
 	}
 	c.R.Checkf(rule, "self-removal-only-removes-itself@selfRemoveFromPool", c.pos(f.Pos()), ok && n >= 1,
 		"the map entry is deleted only on the edge where the slot's occupant is this very endpoint (%d delete site(s)): a late second retire of an endpoint that was already replaced would otherwise evict its live successor, which is then never closed", n)
+}
+
+func truncRunes(s string, n int) string {
+	r := []rune(s)
+	if len(r) <= n {
+		return s
+	}
+	return string(r[:n]) + "…"
 }
